@@ -26,7 +26,7 @@ type c18cPlan struct {
 }
 
 func c18cGen(t *rapid.T) c18cPlan {
-	p := c18cPlan{Rounds: rapid.SampledFrom([]int{200, 400, 800}).Draw(t, "rounds")}
+	p := c18cPlan{Rounds: rapid.SampledFrom([]int{150, 300, 500}).Draw(t, "rounds")}
 	for i, n := 0, rapid.IntRange(1, 3).Draw(t, "togglers"); i < n; i++ {
 		p.Togglers = append(p.Togglers, rapid.SampledFrom([]string{"s0", "s0", "s1"}).Draw(t, "svc"))
 	}
